@@ -9,3 +9,55 @@ package promise
 //@   ensures lens: len(results) == len(fns) && len(errors) == len(fns)
 //@   ensures fresh: fresh(results) && fresh(errors) && !sameBacking(results, fns)
 //@   ensures failed-slot-is-zero: forall i int :: 0 <= i && i < len(fns) ==> (errors[i] != nil ==> results[i] == zero(V))
+
+// ---- C46: fork/join decomposition of All. The exported contract above follows from the three proved
+// pieces below by the fork/join rule (trusted: sync.WaitGroup and channel close/receive happens-before):
+//   worker i (All$2) writes only slot i of results/errors, the outcome of task i, and calls Done exactly once;
+//   the main thread (All@forkjoin) allocates both slices with one slot per task, adds len(fns) to the wait
+//   group, forks exactly one worker per task with that task's own index, and returns only after a receive
+//   from `done` on every path (also when the context is cancelled);
+//   the waiter (All$1) closes `done` only after Wait returned.
+//@ func All$2(i int, fn func(context.Context) (V, error))
+//@   opt frame=off
+//@   safety bounds
+//@   requires slot-exists: 0 <= i && i < len(results) && i < len(errors) && !sameBacking(results, errors)
+//@   ghost v0 V
+//@   ghost e0 error = nil
+//@   ghost called int = 0
+//@   ghost dones int = 0
+//@   at after call dyn#1: ghost v0 := callresult0
+//@   at after call dyn#1: ghost e0 := callresult1
+//@   at after call dyn#1: ghost called := called + 1
+//@   at call dyn#1: assert task-runs-with-the-shared-context: callarg0 == fnCtx
+//@   at defer Done#1: assert done-is-deferred-to-the-workers-exit-before-the-task-starts: called == 0 && dones == 0
+//@   at defer Done#1: ghost dones := dones + 1
+//@   ensures local-the-task-ran-once-and-done-was-called-once: called == 1 && dones == 1
+//@   ensures local-an-error-goes-to-its-own-slot: e0 != nil ==> (errors[i] == e0 && results[i] == old(results[i]))
+//@   ensures local-a-value-goes-to-its-own-slot: e0 == nil ==> (results[i] == v0 && errors[i] == old(errors[i]))
+//@   ensures other-slots-untouched: forall j int :: (0 <= j && j != i) ==> ((j < len(results) ==> results[j] == old(results[j])) && (j < len(errors) ==> errors[j] == old(errors[j])))
+//@   ensures slices-themselves-untouched: results == old(results) && errors == old(errors)
+
+//@ func All$1()
+//@   safety off
+//@   opt frame=off
+//@   ghost waited bool = false
+//@   at after call Wait#1: ghost waited := true
+//@   at call close#1: assert done-is-closed-only-after-every-worker-called-done: waited && callarg0 == done
+
+//@ func All@forkjoin(fnCtx context.Context, fns []func(fnCtx context.Context) (V, error)) (rs []V, es []error)
+//@   opt frame=off
+//@   safety bounds
+//@   ghost spawned int = 0
+//@   ghost which int = -2
+//@   ghost drained bool = false
+//@   at call Add#1: assert one-count-per-task: callarg1 == len(fns)
+//@   at go All$2#1: assert each-task-is-forked-with-its-own-index: spawned == rangeindex && callarg0 == rangeindex && callarg1 == fns[rangeindex]
+//@   at go All$2#1: ghost spawned := spawned + 1
+//@   at after select#1: assert first-case-waits-for-done: callarg0 == done
+//@   at after select#1: ghost which := callresult0
+//@   at recv#1: assert cancelled-branch-still-waits-for-done: callarg0 == done
+//@   at recv#1: ghost drained := true
+//@   ensures local-one-worker-per-task: spawned == len(fns)
+//@   ensures local-returns-only-after-done: which == 0 || drained
+//@   ensures local-one-slot-per-task: len(rs) == len(fns) && len(es) == len(fns) && fresh(rs) && fresh(es) && !sameBacking(rs, es)
+//@   loop fn: invariant forked: -1 <= rangeindex && rangeindex < len(fns) && spawned == rangeindex + 1 && unchanged(fns) && len(results) == len(fns) && len(errors) == len(fns) && fresh(results) && fresh(errors) && !sameBacking(results, errors)
